@@ -155,6 +155,10 @@ class Ctx:
                 rejected.setdefault(v[1], []).append(v[2:])
         for k, (c, clause) in enumerate(selftest or []):
             sid = "SELFTEST-%d" % k
+            if clause == "ok":           # the static good case must be accepted
+                if sid in rejected:
+                    raise Machinery("binding self-test: %s rejected the static good case: %s" % (module, rejected[sid]))
+                continue
             if sid not in rejected:
                 raise Machinery("binding self-test: %s accepted a corrupted case (%s)" % (module, clause))
             if clause is not None and not any(v[0] == clause for v in rejected[sid]):
